@@ -440,10 +440,12 @@ Returns:
             # gather old and new results in monitors
             _solver._stepmon[:] = s._stepmon
             sm._x,sm._y,sm._id,sm._info = _stepmon
+            sm.k = _solver._stepmon.k # (the costs are scaled by the solver's k)
             _solver._stepmon[ls:] = sm[ls:]
             del sm
             _solver._evalmon[:] = s._evalmon
             em._x,em._y,em._id,em._info = _evalmon
+            em.k = _solver._evalmon.k
             _solver._evalmon[le:] = em[le:]
             del em
             if not _solver._fcalls[0]: #FIXME: HACK workaround dropped _fcalls
